@@ -99,6 +99,33 @@ def run(ctx, rep):
                     if nm == "target_index":
                         role = shape[tpos]
                     reads.append((f, n, pos, role))
+        # the object lists are indexed by the index read for their own kind
+        role_of = {}
+        for f, n, pos, role in reads:
+            if role is not None:
+                role_of.setdefault(f.qualname, {})[n.targets[0].id] = role
+        for f in [x for x in funcs if x is not None]:
+            for n in own_nodes(f.node):
+                if isinstance(n, ast.Subscript) and isinstance(n.ctx, ast.Load):
+                    base = unparse(n.value)
+                    kind = next((k for k in ("state", "povm", "gate", "mprocess") if base == k + "s" or base.endswith("." + k + "s") or base.endswith("._" + k + "s")), None)
+                    if kind is None or base.endswith("schedules"):
+                        continue
+                    con = "%s: %s" % (short, unparse(n))
+                    if isinstance(n.slice, ast.Constant) and n.slice.value == 0 and "_set_qoperations" in base:
+                        continue            # the template object of the unknown
+                    if not isinstance(n.slice, ast.Name):
+                        rep.info("M3", f, con, "list indexed by a non-name expression")
+                        continue
+                    r = role_of.get(f.qualname, {}).get(n.slice.id)
+                    if r == kind:
+                        rep.holds("M3", f, con, "%s list indexed by the %s index the schedule names" % (kind, kind), node=n)
+                    elif r is not None:
+                        rep.violation("M3", f, con, "the %s list is indexed by `%s`, which is the schedule's %s index" % (kind, n.slice.id, r), node=n)
+                    else:
+                        rep.violation("M3", f, con, "the %s list is indexed by `%s`, which is not an index read from the schedule (the position of the "
+                                                    "schedule in the list is not the number of the %s it uses: any permuted, partial or repeating schedule "
+                                                    "list picks the wrong tester)" % (kind, n.slice.id, kind), node=n)
         if not reads:
             rep.undecided("M3", cq, "positions", "no schedule position reads found")
         for f, n, pos, role in reads:
